@@ -3,100 +3,99 @@ package main
 // Rules of C13 added after the rounds of independently authored breaking changes (DESIGN 11.6, 11.7).
 
 import (
-	"go/token"
-	"strings"
-
 	"golang.org/x/tools/go/ssa"
 )
 
+// C13.L2: wherever the lookup (Table.Lookup or a helper of it) concludes "this redirect points back at the request"
+// - the block that hands on nil / continues with the next host - it knows scheme, host:port and path to be equal.
 func runC13L2(c *Ctx) {
 	lk := c.method("route", "Table", "Lookup")
-	if lk == nil {
+	if !c.need("C13.L2", lk, "route.Table.Lookup") {
 		return
 	}
-	// the skip edge: block in the loop that jumps back to the head under RedirectCode != 0 with a nil result (L1)
+	reg := c.region(lk)
 	n := 0
-	for _, l := range loopsOf(lk) {
-		for _, p := range l.Head.Preds {
-			if !l.Body[p] {
-				continue
-			}
-			fs := factsAt(p)
-			isRedirect := false
-			for _, ft := range fs {
-				if b, ok := ft.Cond.(*ssa.BinOp); ok && b.Op == token.NEQ && ft.Truth {
-					if _, isF := fieldOf(b.X, "route.Target", "RedirectCode"); isF {
-						isRedirect = true
-					}
-				}
-			}
-			if !isRedirect {
-				continue
-			}
-			n++
-			var scheme, host, path bool
-			for _, ft := range fs {
-				b, ok := ft.Cond.(*ssa.BinOp)
-				if !ok || b.Op != token.EQL || !ft.Truth {
-					continue
-				}
-				fx := func(v ssa.Value, typ, field string) bool { _, ok := fieldOf(v, typ, field); return ok }
-				onRedirect := func(v ssa.Value) bool {
-					return derives(v, func(x ssa.Value) bool { _, ok := fieldOf(x, "route.Target", "RedirectURL"); return ok })
-				}
-				switch {
-				case fx(b.X, "url.URL", "Scheme") && onRedirect(b.X):
-					scheme = true
-				case fx(b.X, "url.URL", "Host") && onRedirect(b.X) && fx(b.Y, "http.Request", "Host"):
-					host = true
-				case fx(b.X, "url.URL", "Path") && onRedirect(b.X) && fx(b.Y, "url.URL", "Path"):
-					path = true
-				}
-			}
-			c.check("C13.L2", "(route.Table).Lookup|self-redirect means same scheme, same host:port and same path", p.Instrs[len(p.Instrs)-1].Pos(), scheme && host && path,
-				"a redirect is skipped only when it would point back at the request itself: the skip edge must carry RedirectURL.Scheme == forwarded proto, RedirectURL.Host == req.Host (the full host including the port) and RedirectURL.Path == request path as field comparisons; comparing less (e.g. host names without port) skips legitimate redirects to another port and sends the request to an upstream instead")
-		}
+	for _, sp := range c13skipPoints(reg) {
+		n++
+		sf := sp.sf
+		c.check("C13.L2", "(route.Table).Lookup|self-redirect means same scheme, same host:port and same path", sp.oc.at.Pos(), sf.scheme && sf.host && sf.path,
+			"a redirect is skipped only when it would point back at the request itself: the skip edge must carry RedirectURL.Scheme == forwarded proto, RedirectURL.Host == req.Host (the full host including the port) and RedirectURL.Path == request path as field comparisons; comparing less (e.g. host names without port) skips legitimate redirects to another port and sends the request to an upstream instead")
 	}
 	c.atLeast("C13.L2", "self-redirect skip edges", n, 1)
 }
 
-// ---- C15.V3: enumerated options are validated on the very value that is used, against the registry's keys ----------
-
+// C13.E2: every caller of the location builder hands it the request URL itself or a copy carrying RawPath.
 func runC13E2(c *Ctx) {
 	lk := c.method("route", "Table", "Lookup")
-	if !c.need("C13.E2", lk, "route.Table.Lookup") {
+	build := c13buildFn(c)
+	if !c.need("C13.E2", lk, "route.Table.Lookup") || !c.need("C13.E2", build, "route.Target.BuildRedirectURL") {
 		return
 	}
-	n := 0
-	eachInstr(lk, func(i ssa.Instruction) {
-		cc := callCommon(i)
-		if cc == nil || !strings.HasSuffix(calleeName(cc), "Target).BuildRedirectURL") || len(cc.Args) < 2 {
-			return
+	inLookup := map[*ssa.Function]bool{}
+	for _, f := range c.region(lk) {
+		inLookup[f] = true
+	}
+	idx := -1
+	for k, p := range build.Params {
+		if typeStr(p.Type()) == "*net/url.URL" {
+			idx = k
 		}
-		n++
-		arg := cc.Args[1]
-		ok := false
-		if _, isReqURL := fieldOf(arg, "http.Request", "URL"); isReqURL {
-			ok = true
-		} else if a, isAlloc := arg.(*ssa.Alloc); isAlloc {
-			fs := fieldStores(a)
-			if len(fs["RawPath"]) > 0 && len(fs["Path"]) > 0 {
-				ok = true
+	}
+	if idx < 0 {
+		c.undecided("C13.E2", "anchor|requestURL parameter", "BuildRedirectURL has no *url.URL parameter")
+		return
+	}
+	isReqURL := func(v ssa.Value) bool { _, ok := fieldOf(v, "http.Request", "URL"); return ok }
+	var carriesRawPath func(arg ssa.Value, depth int) bool
+	carriesRawPath = func(arg ssa.Value, depth int) bool {
+		return c13allArgs(arg, func(arg ssa.Value) bool {
+			if isReqURL(arg) {
+				return true
 			}
-			for _, r := range *a.Referrers() {
-				if st, isSt := r.(*ssa.Store); isSt && st.Addr == a {
-					if u, isU := st.Val.(*ssa.UnOp); isU {
-						if _, isReqURL := fieldOf(u.X, "http.Request", "URL"); isReqURL {
-							ok = true // whole-struct copy of *req.URL
+			switch a := arg.(type) {
+			case *ssa.Alloc:
+				fs := fieldStores(a)
+				if len(fs["RawPath"]) > 0 && len(fs["Path"]) > 0 {
+					return true
+				}
+				for _, r := range *a.Referrers() {
+					if st, isSt := r.(*ssa.Store); isSt && st.Addr == a {
+						if u, isU := st.Val.(*ssa.UnOp); isU && carriesRawPath(u.X, depth+1) {
+							return true // whole-struct copy of *req.URL
 						}
 					}
 				}
+			case *ssa.Call:
+				// a repository helper that returns the request URL or such a copy (cloneURL(req.URL))
+				sc := a.Call.StaticCallee()
+				if sc == nil || !isRepoFn(sc) || len(sc.Blocks) == 0 || depth > 2 {
+					return false
+				}
+				n, all := 0, true
+				eachInstr(sc, func(i ssa.Instruction) {
+					if r, ok := i.(*ssa.Return); ok && len(r.Results) > 0 {
+						n++
+						if !carriesRawPath(r.Results[0], depth+1) {
+							all = false
+						}
+					}
+				})
+				return n > 0 && all
 			}
+			return false
+		})
+	}
+	n := 0
+	for _, site := range gSites[build] {
+		cc := site.Common()
+		if idx >= len(cc.Args) {
+			continue
 		}
-		c.check("C13.E2", "(route.Table).Lookup|redirect built from the request URL including RawPath", i.Pos(), ok,
+		if inLookup[site.Parent()] {
+			n++
+		}
+		c.check("C13.E2", "(route.Table).Lookup|redirect built from the request URL including RawPath", site.Pos(), carriesRawPath(cc.Args[idx], 0),
 			"BuildRedirectURL substitutes $path with the encoded path (RawPath) when the request has one; it must be given req.URL itself or a copy that carries RawPath — a URL rebuilt from Path and RawQuery alone turns %2F in the request into '/' in the Location")
-	})
-	c.atLeast("C13.E2", "BuildRedirectURL calls in Table.Lookup", n, 1)
+	}
+	c.atLeast("C13.E2", "BuildRedirectURL calls reachable from Table.Lookup", n, 1)
 }
-
-// ---- C14.E1: option text of a urlprefix tag is not environment-expanded -------------------------------------
